@@ -32,6 +32,7 @@ func init() {
 			{Name: "graph-orders", Run: c10Graphs, QuickS: 60, ThoroughS: 900},
 			{Name: "percall-deviations", Run: c10Dev, QuickS: 60, ThoroughS: 900},
 			{Name: "scan-schedules", Run: c10Scan, QuickS: 60, ThoroughS: 900},
+			{Name: "ordered-participants", Run: c10Ordered, QuickS: 60, ThoroughS: 600},
 		},
 	})
 }
@@ -477,3 +478,91 @@ func c10Scan(c *core.Ctx) {
 var pointerRe = regexp.MustCompile(`0x[0-9a-f]+`)
 
 func maskPointers(s string) string { return pointerRe.ReplaceAllString(s, "0xPTR") }
+
+// ---- ordered participants (post-processors, runners, loaders) without ties: their invocation
+// sequence must not depend on registration / enumeration order
+
+func c10Ordered(c *core.Ctx) {
+	type oc struct {
+		Seq  []int  `json:"symbols"`
+		Site string `json:"site"`
+		Perm []int  `json:"perm,omitempty"`
+	}
+	gen := func(yield func(oc) bool) {
+		for _, site := range []string{"runners", "loaders", "processors"} {
+			ok := true
+			seqs(3, 11, func(s []int) bool {
+				// no ties: all symbols distinct and at most one unordered participant; canonical (sorted) sequences only
+				for i := range s {
+					for j := i + 1; j < len(s); j++ {
+						if s[i] >= s[j] {
+							return true
+						}
+					}
+				}
+				if len(s) < 2 {
+					return true
+				}
+				ok = yield(oc{Seq: s, Site: site})
+				return ok
+			})
+			if !ok {
+				return
+			}
+		}
+	}
+	prefix := map[string]string{"runners": "run:", "loaders": "load:", "processors": "before:"}
+	Cases(c, gen, func(c *core.Ctx, cs oc) {
+		run := func(perm []int) string {
+			_, shared, o := c12RunSite(c12Case{Seq: cs.Seq, Site: cs.Site, Perm: perm})
+			c.S.Evaluations++
+			c.S.States++
+			c.S.Transitions += int64(o.Trace.Calls)
+			if !o.OK() {
+				return "start-failed:" + scen.FirstLine(o.Err) + o.Panic + o.Abort
+			}
+			var seq []string
+			for _, e := range shared.Log {
+				if strings.HasPrefix(e, prefix[cs.Site]) {
+					seq = append(seq, strings.SplitN(strings.TrimPrefix(e, prefix[cs.Site]), ":", 2)[0])
+				}
+			}
+			return strings.Join(seq, ",")
+		}
+		n := len(cs.Seq)
+		if c.ReplayCase != nil {
+			a, b := run(scen.NthPerm(n, 0)), run(cs.Perm)
+			if a != b {
+				c.Report("C10/replay", "order-dependent", a+" vs "+b, cs)
+			}
+			return
+		}
+		c.S.Programs++
+		c.S.Nontrivial++
+		first := ""
+		for k := 0; k < factorialInt(n); k++ {
+			perm := scen.NthPerm(n, k)
+			sig := run(perm)
+			if k == 0 {
+				first = sig
+				continue
+			}
+			if sig != first {
+				var symn []string
+				for _, s := range cs.Seq {
+					symn = append(symn, c12Sym(s))
+				}
+				cc := cs
+				cc.Perm = perm
+				c.Outcome("ordered/differs")
+				c.Report("C10/ordered/"+core.Hash(cs.Seq, cs.Site), "order-dependent",
+					fmt.Sprintf("%s %v (no two equally ranked): invocation sequence %q under the identity registration order, %q under order %v", cs.Site, symn, first, sig, perm), cc)
+				return
+			}
+		}
+		c.Outcome("ordered/" + cs.Site + "/same-sequence")
+		if c.S.Programs%60 == 1 {
+			c.Sample(map[string]any{"site": cs.Site, "symbols": cs.Seq, "sequence": first, "orders_run": factorialInt(n)})
+		}
+	})
+}
